@@ -26,7 +26,7 @@ func runC20(e *Engine, tier Tier) *PropRun {
 			return false
 		}
 		ct := e.contractFor(fn, opts)
-		return ct != nil && ct.hasCost()
+		return ct != nil && ct.hasCostClause()
 	})
 	assumed := map[string]bool{}
 	post := func(fr *Frame, q *Query) {
@@ -34,6 +34,14 @@ func runC20(e *Engine, tier Tier) *PropRun {
 			assumed[k] = true
 		}
 	}
+	e.prepareExempt("C20", e.sourceFns(func(fn *ssa.Function, file string) bool { return fn.Parent() == nil && strings.HasPrefix(file, "pkg/sql/tokenizer/") }), opts)
+	fns = e.sourceFns(func(fn *ssa.Function, file string) bool {
+		if fn.Parent() != nil {
+			return false
+		}
+		ct := e.contractFor(fn, opts)
+		return ct != nil && ct.hasCostClause()
+	})
 	rs := e.verifyAll(fns, opts, post)
 	var al []string
 	for k := range assumed {
@@ -47,7 +55,7 @@ func runC20(e *Engine, tier Tier) *PropRun {
 		},
 		Level:       "other",
 		Explanation: "Cost contracts over a ghost step counter: one step per loop-header passage plus the assumed cost of library calls, concatenations and conversions. Every function under a cost contract is proved to spend at most a linear function of the bytes it consumes (cursor advance) plus a constant, or - on an error path, taken at most once per run - of the input length; the main loops of Tokenize / TokenizeContext carry the telescoped bound as an invariant, so a whole run is linear in len(input) (the line-table pre-scan is one pass). Position queries (toSQLPosition) are bounded by the distance from the previous query plus a binary search.",
-		NotCovered:  []string{"parser (recursive descent: cost per token consumed), token conversion, AST serialisation, the AST-walking part of the security scanner", "allocation and garbage-collection cost; memory growth of append is taken as amortised constant per element", "the regular-expression passes of ScanSQL (RE2 matching is assumed linear)"},
+		NotCovered:  []string{"the parser as a whole (recursive descent: cost per token consumed) - only its name / type-list / mode-word builders are under cost contracts; token conversion; AST serialisation (the quadratic rendering of long operator chains was found by measurement and repaired, not proved); the AST-walking part of the security scanner", "allocation and garbage-collection cost; memory growth of append is taken as amortised constant per element", "the regular-expression passes of ScanSQL (RE2 matching is assumed linear)"},
 		Assumptions: append([]string{"every instruction other than a loop back-edge, a call, a string concatenation or a string/byte conversion costs O(1) and is not counted", "clauses of the same contracts that belong to other properties (cursor invariant tz_ok, progress) are assumed here and discharged by the C01/C04 checks"}, al...),
 	}
 }
